@@ -72,6 +72,14 @@ func c14File(feature int, withService bool) (*protogen.File, string) {
 		f := verif.AddField(m, &verif.FieldDesc{FName: n1, FJSON: j1, FKind: protoreflect.MessageKind, FNumber: 1, FMsg: w.child.Desc,
 			FOpts: c14Opts(func(o *descriptorpb.FieldOptions) { verif.SetExt(o, http.E_EmptyBehavior, eb) })}, "F1")
 		f.Message = w.child
+		if verif.Bool("emptyBehavior.second") {
+			// a second annotated field with its own behaviour (the codec's shape may depend
+			// on the combination, not on one field)
+			eb2 := http.EmptyBehavior(1 + verif.Choice("emptyBehavior2", 3))
+			f2 := verif.AddField(m, &verif.FieldDesc{FName: "second_child", FJSON: "secondChild", FKind: protoreflect.MessageKind, FNumber: 2, FMsg: w.child.Desc,
+				FOpts: c14Opts(func(o *descriptorpb.FieldOptions) { verif.SetExt(o, http.E_EmptyBehavior, eb2) })}, "SecondChild")
+			f2.Message = w.child
+		}
 		suffix = "_empty_behavior.pb.go"
 	case 4: // timestamp_format
 		n1, j1 := c14Name("f1")
